@@ -23,7 +23,8 @@ EXPLANATION = (
     "layout arithmetic must hand integers to range(), sequence repetition and from_Bar (float kinds raise); "
     "from_Bar is evaluated on a model bar and the rendered lines are decoded column by column.")
 TRUSTED = ["CPython ast module", "mingus_static abstract evaluator", "brute-force fingering specification and tab decoder in rules/c20.py"]
-NOT_DECIDED = ("find_chord_fingering (coverage / finger limits of chord fingerings); tablature of whole compositions beyond the layout arithmetic; "
+NOT_DECIDED = ("completeness of find_chord_fingering (soundness of every returned row is decided on oracle tables); the text layout of whole tracks / compositions "
+               "(which bar is rendered with which tuning is decided); "
                "the 76 registered tunings are not enumerated (the rules are over abstract tunings)")
 
 TU, TB, NOTE, NC, BAR, TR, COMP = ("mingus.extra.tunings", "mingus.extra.tablature", "mingus.containers.note", "mingus.containers.note_container",
@@ -38,10 +39,12 @@ def run(ctx):
     rule_frets(ctx)
     rule_get_note(ctx)
     rule_fingering(ctx)
+    rule_chord_fingering(ctx)
     rule_search(ctx)
     rule_courses(ctx)
     rule_layout(ctx)
     rule_tab_bar(ctx)
+    rule_tab_composition(ctx)
     ctx.floor("R-C20-1", 6)
     ctx.floor("R-C20-2", 5)
     ctx.floor("R-C20-3", 4)
@@ -216,6 +219,78 @@ def rule_fingering(ctx):
         ctx.check(len(paths) == 1 and paths[0].value == [], R, "find_fingering[%s]" % label, f.where(), "find_fingering(%s)" % label, "gives %s" % [(p.kind, p.value) for p in paths])
 
 
+def rule_chord_fingering(ctx):
+    """find_chord_fingering: every returned row has one entry per string, frets only where the string sounds a chord
+    note, covers every chord note name, keeps the non-open frets within the span and the finger count within the limit.
+    Evaluated on oracle tables (open-string pitch classes x chord) with find_note_names summarised by the oracle."""
+    R = "R-C20-5"
+    repo = ctx.repo
+    ci = repo.mod(TU).cls("StringTuning")
+    f = repo.find_method(ci, "find_chord_fingering")
+    fn = repo.mod(TU).func("fingers_needed")
+    ctx.touch(f, fn)
+    pc = {"C": 0, "C#": 1, "D": 2, "Eb": 3, "E": 4, "F": 5, "F#": 6, "G": 7, "Ab": 8, "A": 9, "Bb": 10, "B": 11}
+    cases = [
+        ("guitar D", [4, 9, 2, 7, 11, 4], ["D", "F#", "A"], 4, 12, 4),
+        ("guitar C7", [4, 9, 2, 7, 11, 4], ["C", "E", "G", "Bb"], 4, 12, 4),
+        ("bass Am", [4, 9, 2, 7], ["A", "C", "E"], 4, 12, 4),
+        ("ukulele F wide", [7, 0, 4, 9], ["F", "A", "C"], 6, 10, 3),
+        ("banjo G narrow", [2, 7, 11, 2], ["G", "B", "D"], 2, 9, 2),
+    ]
+    if ctx.tier != "thorough":
+        cases = [cases[0], cases[2], cases[3], cases[4]]
+    nci = repo.mod(NC).cls("NoteContainer")
+    for label, opens, names, maxd, maxfret, maxfing in cases:
+        tables = [[(x, next(n for n in names if pc[n] == (o + x) % 12)) for x in range(maxfret + 1) if (o + x) % 12 in {pc[n] for n in names}] for o in opens]
+        notes = [note_stub(repo, "n%s" % n, name=n) for n in names]
+        cont = AObj(nci, {"notes": notes}, name="chord")
+        key = "%s.StringTuning.find_note_names" % TU
+
+        def fnn(it, args, kwargs, node, tables=tables):
+            string = args[2] if len(args) > 2 else kwargs.get("string", 0)
+            return list(tables[string])
+        strings = [note_stub(repo, "s%d" % i) for i in range(len(opens))]
+
+        def go(it):
+            rows = it.call_function(f, [tuning_obj(repo, strings), cont, maxd, maxfret, maxfing], {})
+            return rows, [it.call_function(fn, [list(r)], {}) for r in rows] if isinstance(rows, list) else None
+        try:
+            paths = explore(lambda ch: Interp(repo, ch, summaries={key: fnn}, max_depth=60, max_iter=100000), go)
+        except CannotDecide as e:
+            raise AnalysisError("find_chord_fingering (%s): %s" % (label, e))
+        ok, why = len(paths) == 1 and paths[0].kind == "return" and isinstance(paths[0].value[0], list), "outcome %s" % [(p.kind, short(repr(p.value), 80)) for p in paths][:2]
+        if ok:
+            rows, fingers = paths[0].value
+            if not rows:
+                ok, why = False, "no fingering at all for a chord that has first-position shapes"
+            for r, fg in zip(rows, fingers):
+                r = list(r)
+                bad = None
+                if len(r) != len(opens):
+                    bad = "has %d entries for %d strings" % (len(r), len(opens))
+                else:
+                    sounding = [(i, x) for i, x in enumerate(r) if x is not None]
+                    got_names = set()
+                    for i, x in sounding:
+                        hit = [n for (fr, n) in tables[i] if fr == x]
+                        if not hit:
+                            bad = "fret %r on string %d sounds no note of the chord" % (x, i)
+                            break
+                        got_names.add(hit[0])
+                    fretted = [x for i, x in sounding if x != 0]
+                    if bad is None and not set(names) <= got_names:
+                        bad = "does not contain %s" % sorted(set(names) - got_names)
+                    elif bad is None and fretted and max(fretted) - min(fretted) >= maxd:
+                        bad = "stretches over frets %d..%d, the limit is a span below %d" % (min(fretted), max(fretted), maxd)
+                    elif bad is None and not (isinstance(fg, int) and fg <= maxfing):
+                        bad = "needs %r fingers, the limit is %d" % (fg, maxfing)
+                if bad:
+                    ok, why = False, "returned fingering %s %s" % (r, bad)
+                    break
+        ctx.check(ok, R, "find_chord_fingering[%s]" % label, f.where(), "find_chord_fingering(<%s>, max_distance=%d, maxfret=%d, max_fingers=%d)" % (label, maxd, maxfret, maxfing), why,
+                  fingerings=len(paths[0].value[0]) if ok else None)
+
+
 def rule_search(ctx):
     R = "R-C20-4"
     repo = ctx.repo
@@ -340,6 +415,63 @@ def rule_layout(ctx):
             elif len(widths) != (3 if fname == "from_Track" else 6):
                 ok, why = False, "%d bars rendered, the music has %d" % (len(widths), 3 if fname == "from_Track" else 6)
         ctx.check(ok, R, "%s(width=%d)" % (fname, width), f.where(), "tablature.%s(..., %d)" % (fname, width), why)
+
+
+def rule_tab_composition(ctx):
+    """from_Track / from_Composition hand every bar to from_Bar with the tuning of the track the bar belongs to
+    (None / the default for a track without one) -- never another track's."""
+    R = "R-C20-T"
+    repo = ctx.repo
+    mod = repo.mod(TB)
+    f = mod.func("from_Composition")
+    ctx.touch(f)
+    trci, compci = repo.mod(TR).cls("Track"), repo.mod(COMP).cls("Composition")
+    default = mod.glob("default_tuning")
+    for order in ("tuned-first", "untuned-first", "untuned-between"):
+        def go(it, order=order):
+            bass = Token("bass tuning")
+            lute = Token("lute tuning")
+            spec = {"tuned-first": [bass, None], "untuned-first": [None, bass], "untuned-between": [bass, None, lute, None]}[order]
+            tracks = []
+            for i, tun in enumerate(spec):
+                bars = [Token("bar%d_%d" % (i, j)) for j in range(3)]
+                tracks.append(AObj(trci, {"bars": bars, "instrument": None, "tuning": tun, "name": "t%d" % i}, name="track%d" % i))
+            comp = AObj(compci, {"tracks": tracks, "title": "T", "subtitle": "", "author": "A", "email": "", "description": ""}, name="comp")
+            dflt = it.lookup_global("default_tuning", mod)
+            return it.call_function(f, [comp, 50], {}), tracks, dflt
+
+        def from_bar(it, args, kwargs, node):
+            log_of(it).append(("from_Bar", list(args), dict(kwargs)))
+            return ["  1   2   3   4 ", "S2||----------|", "S1||----------|"]
+        summ = {TB + ".from_Bar": from_bar, TB + ".add_headers": lambda it, a, k, n: []}
+        try:
+            paths = explore(lambda ch: Interp(repo, ch, summaries=summ, max_depth=30), go)
+        except CannotDecide as e:
+            raise AnalysisError("tablature.from_Composition (%s): %s" % (order, e))
+        ok, why = len(paths) == 1 and paths[0].kind == "return", "outcome %s" % [(p.kind, short(repr(p.value), 80)) for p in paths][:2]
+        if ok:
+            text, tracks, dflt = paths[0].value
+            calls = [c for c in log_of(paths[0].interp) if c[0] == "from_Bar"]
+            owner = {}
+            for t in tracks:
+                for b in t.attrs["bars"]:
+                    owner[id(b)] = t
+            seen = set()
+            for _, a, k in calls:
+                bar = a[0] if a else k.get("bar")
+                tun = a[2] if len(a) > 2 else k.get("tuning")
+                t = owner.get(id(bar))
+                if t is None:
+                    ok, why = False, "from_Bar called on something that is no bar of the composition: %r" % (bar,)
+                    break
+                seen.add(id(bar))
+                want = t.attrs["tuning"]
+                if not (tun is want or (want is None and (tun is None or tun is dflt))):
+                    ok, why = False, "a bar of %s (%s) is rendered with %r" % (t.name, "tuning %r" % want if want is not None else "no tuning of its own: the default applies", tun)
+                    break
+            if ok and seen != set(owner):
+                ok, why = False, "%d of %d bars are never rendered" % (len(owner) - len(seen), len(owner))
+        ctx.check(ok, R, "from_Composition[%s]" % order, f.where(), "tablature.from_Composition(<%s>)" % order, why)
 
 
 def rule_tab_bar(ctx):
